@@ -4,6 +4,7 @@ from vlib import PKG
 import translate_arith
 import translate_params
 import translate_hedge
+import translate_ks
 
 
 def gen_arith():
@@ -18,4 +19,8 @@ def gen_hedge():
     return translate_hedge.translate(os.path.join(PKG, "nlp/language_parsing.py"))
 
 
-ALL = [("GenArith", gen_arith), ("GenParams", gen_params), ("GenHedge", gen_hedge)]
+def gen_ks():
+    return translate_ks.translate(os.path.join(PKG, "pba/pbox_free.py"))
+
+
+ALL = [("GenArith", gen_arith), ("GenParams", gen_params), ("GenHedge", gen_hedge), ("GenKS", gen_ks)]
